@@ -91,7 +91,8 @@ def cases(tier, rng):
     voc = list(vocab())
     for x, want in voc:
         yield Case("value.determine", [F(x)], "determine/built", kind=("built", want))
-        for pct in (0.01, -0.01, 0.005, -0.005, 0.001, -0.001, 0.0099, -0.0099):
+        for pct in (0.01, -0.01, 0.005, -0.005, 0.001, -0.001, 0.0099, -0.0099, 1 / 127.0, 1 / 255.0, 1 / 511.0, 1 / 1023.0, -1 / 127.0,
+                    0.002, 0.003, 0.004, 0.006, 0.007, 0.008, 0.009, -0.003, -0.007):
             tag = "near" if want[1] <= 1 and want[2] == 1 else "perturbed"
             yield Case("value.determine", [F(x * (1 + pct))], "determine/" + tag, kind=(tag, want, x))
     thr = [0.9375, 0.8125, 17 / 24.0, 31 / 48.0, 67 / 112.0, 4.0 / 7, 8.0 / 15, 16.0 / 31, 0.5, 1.0]
